@@ -323,6 +323,26 @@ func ruleConstDedup(p *Program, r *Reporter) {
 	})
 	key := "constants are merged only on equal type and equal printed form"
 	if n == 0 {
+		// a return that is not preceded by the append hands out the index of
+		// an existing constant: that is a merge, by whatever means
+		var app *ssa.Store
+		for _, b := range a.addConstant.Blocks {
+			for _, ins := range b.Instrs {
+				if st, ok := ins.(*ssa.Store); ok && fieldKey(st.Addr) == "evalfilter.Eval.constants" {
+					app = st
+				}
+			}
+		}
+		merges := token.NoPos
+		for _, b := range a.addConstant.Blocks {
+			if ret, ok := terminator(b).(*ssa.Return); ok && (app == nil || !(app.Block() == b || app.Block().Dominates(b))) {
+				merges = ret.Pos()
+			}
+		}
+		if merges.IsValid() {
+			r.Undecided(key, p.Pos(merges), "the pool hands out the index of an existing constant on a path this rule does not understand (not a search that compares Type() and Inspect() of each entry — an index keyed by the printed form alone would merge 1 and \"1\", or /count/ and the name count): whether only equal constants are merged is not decided")
+			return
+		}
 		r.OkNT(key, p.Pos(fd.Pos()), "the pool never merges constants")
 		return
 	}
